@@ -61,8 +61,8 @@ func (o operand) lean() string {
 }
 
 var knownExt = map[string]bool{"genValueInt": true, "genValueUint": true, "genValueShiftCount": true, "genValueFloat": true, "genComplex": true, "genValue": true,
-	"genValueString": true, "vInt": true, "vUint": true, "vFloat": true, "vComplex": true, "vString": true, "rval": true, "lit1": true, "none": true}
-var knownAcc = map[string]bool{"none": true, "String": true, "Complex": true, "Int": true, "Uint": true, "Float": true, "Bool": true, "Interface": true}
+	"genValueString": true, "vInt": true, "vUint": true, "vFloat": true, "vComplex": true, "vString": true, "constValue": true, "rval": true, "lit1": true, "none": true}
+var knownAcc = map[string]bool{"none": true, "String": true, "Complex": true, "Int": true, "Uint": true, "Float": true, "Bool": true, "Interface": true, "Pointer": true}
 
 func lower(s string) string {
 	if s == "" {
@@ -172,6 +172,8 @@ func condLabel(e ast.Expr) (kind, label string) {
 		return "cls", "linked"
 	case "t0.Kind() == reflect.Interface || t1.Kind() == reflect.Interface":
 		return "cls", "ifaceOperand"
+	case "t0.Kind() == reflect.Chan && t1.Kind() == reflect.Chan && t0 != t1":
+		return "cls", "chanMixed" // a bidirectional channel compared with a directional one (repair 6110e8a)
 	}
 	return "", ""
 }
@@ -253,7 +255,7 @@ func (w *walker) resolve(c *ctx, e ast.Expr) operand {
 		// vInt(v0) in xxxConst
 		if id, ok := x.Fun.(*ast.Ident); ok && len(x.Args) == 1 {
 			switch id.Name {
-			case "vInt", "vUint", "vFloat", "vComplex", "vString":
+			case "vInt", "vUint", "vFloat", "vComplex", "vString", "constValue":
 				if a, ok := x.Args[0].(*ast.Ident); ok {
 					if o, ok := c.env[a.Name]; ok && o.Ext == "rval" && o.Acc == "" {
 						return operand{Ext: id.Name, Child: o.Child}
@@ -323,7 +325,32 @@ func (w *walker) emit(c *ctx, pos token.Pos, recv ast.Expr, method string, arg a
 			w.bad(pos, "receiver %s", r)
 		}
 	}
-	if method == "Set" {
+	if method == "setConstFloat" {
+		// setConstFloat(n.rval, constant.BinaryOp(constValue(v0), token.ADD, constValue(v1)))
+		// setConstFloat(n.rval, constant.UnaryOp(token.SUB, constValue(v0), 0))
+		// exact go/constant arithmetic on the typed operands, rounded once to the type of n.rval
+		e.Store = "setConstFloat"
+		none := operand{Ext: "none", Child: -1}
+		e.L, e.R, e.Tok = operand{Ext: "unrecognised:" + src(arg), Child: -1}, none, "unrecognised"
+		tokOf := func(x ast.Expr, unary bool) string {
+			m := map[string]string{"token.ADD": "add", "token.SUB": "sub", "token.MUL": "mul", "token.QUO": "quo"}
+			if unary {
+				m = map[string]string{"token.ADD": "pos", "token.SUB": "neg"}
+			}
+			if t, ok := m[src(x)]; ok {
+				return t
+			}
+			return "unrecognised"
+		}
+		if call, ok := arg.(*ast.CallExpr); ok {
+			switch {
+			case src(call.Fun) == "constant.BinaryOp" && len(call.Args) == 3:
+				e.L, e.Tok, e.R = w.resolve(c, call.Args[0]), tokOf(call.Args[1], false), w.resolve(c, call.Args[2])
+			case src(call.Fun) == "constant.UnaryOp" && len(call.Args) == 3 && src(call.Args[2]) == "0":
+				e.Tok, e.L = tokOf(call.Args[0], true), w.resolve(c, call.Args[1])
+			}
+		}
+	} else if method == "Set" {
 		// Set(reflect.ValueOf(EXPR).Convert(typ))  |  Set(value(f))  |  Set(reflect.ValueOf(v))
 		s := src(arg)
 		if strings.HasPrefix(s, "reflect.ValueOf(") && strings.HasSuffix(s, ").Convert(typ)") {
@@ -538,19 +565,32 @@ func (w *walker) stmts(c ctx, list []ast.Stmt) {
 						c2.cls = "other"
 					}
 				} else {
-					k, l := condLabel(cl.List[0])
-					switch k {
-					case "variant":
-						c2.variant = l
-					case "cls":
-						c2.cls = l
-						if w.isConstFn() {
-							c2.variant = "fold"
+					// `case isComplex(t), isFloat(t):` — one walk of the body per listed condition, in source order
+					okAll := true
+					var walks []ctx
+					for _, cond := range cl.List {
+						k, l := condLabel(cond)
+						c3 := c.clone()
+						switch {
+						case k == "variant" && len(cl.List) == 1:
+							c3.variant = l
+						case k == "cls":
+							c3.cls = l
+							if w.isConstFn() {
+								c3.variant = "fold"
+							}
+						default:
+							w.bad(cl.Pos(), "case condition %s", src(cond))
+							okAll = false
 						}
-					default:
-						w.bad(cl.Pos(), "case condition %s", src(cl.List[0]))
-						continue
+						walks = append(walks, c3)
 					}
+					if okAll {
+						for _, c3 := range walks {
+							w.stmts(c3, cl.Body)
+						}
+					}
+					continue
 				}
 				w.stmts(c2, cl.Body)
 			}
@@ -583,7 +623,7 @@ func (w *walker) stmts(c ctx, list []ast.Stmt) {
 					c3.sub = "val"
 					w.stmts(c3, st.Else.(*ast.BlockStmt).List)
 				}
-			case k == "cls" && (l == "linked" || l == "ifaceOperand"): // equal/notEqual: comparison through interface{} values
+			case k == "cls" && (l == "linked" || l == "ifaceOperand" || l == "chanMixed"): // equal/notEqual: comparison through interface{} values / channel pointers
 				c2 := c.clone()
 				c2.cls = l
 				w.stmts(c2, st.Body.List)
@@ -604,6 +644,10 @@ func (w *walker) stmts(c ctx, list []ast.Stmt) {
 		case *ast.ExprStmt:
 			if recv, m, arg, ok := storeCall(st); ok {
 				w.emit(&c, st.Pos(), recv, m, arg)
+				continue
+			}
+			if call, ok := st.X.(*ast.CallExpr); ok && src(call.Fun) == "setConstFloat" && len(call.Args) == 2 {
+				w.emit(&c, st.Pos(), call.Args[0], "setConstFloat", call.Args[1])
 				continue
 			}
 			w.bad(st.Pos(), "statement %s", src(st))
@@ -948,7 +992,7 @@ func fnLean(s string) string {
 
 func clsLean(s string) string {
 	switch s {
-	case "int", "uint", "uintNoPtr", "float", "complex", "string", "bool", "other", "any", "untypedConst", "linked", "ifaceOperand":
+	case "int", "uint", "uintNoPtr", "float", "complex", "string", "bool", "other", "any", "untypedConst", "linked", "ifaceOperand", "chanMixed":
 		return s
 	}
 	return "unrecognised"
@@ -965,7 +1009,7 @@ func tokLean(s string) string {
 
 func storeLean(s string) string {
 	switch s {
-	case "setInt", "setUint", "setFloat", "setComplex", "setString", "setBool", "convertTyp", "branch", "setValue", "constantValue":
+	case "setInt", "setUint", "setFloat", "setComplex", "setString", "setBool", "convertTyp", "branch", "setValue", "constantValue", "setConstFloat":
 		return s
 	}
 	return "unrecognised"
